@@ -38,6 +38,9 @@ def generate(seed, tier="quick", mode=None, **kw):
     cls_list = ["j9p", "j9p", "c9", "j9p-num", "text", "md5"] if odd_salt else None
     if mode == "c08" and r.random() < 0.25:
         cls_list = ["text", "text", "num", "hex", "t7", "md5", "j9p", "pseudo", "pseudo", "rwc"]
+    elif mode == "c08" and r.random() < 0.12:
+        # an over-long md5 salt makes the file fail at that line today; consistency must hold for what was written
+        cls_list = ["text", "text", "num", "hex", "t7", "md5", "md5-long", "md5-long", "j9p"]
     secrets = GC.gen_secrets(r, nid, classes=cls_list, words=o["words"] or (), variant_rate=(0.4 if mode == "c08" else 0.15))
     if mode == "c07" and r.random() < 0.25:
         # world A hides a relation that world B lacks: the same plaintext behind two type-7 encodings (other salt
